@@ -27,7 +27,11 @@ func vspecArtsEq(a, b map[string]HashObj) bool {
 }
 
 func vhSmallArts(tag string) map[string]HashObj {
-	return map[string]HashObj{vPick(tag+".name", "a", "b"): {vPick(tag+".alg", "sha256", "sha512"): vPick(tag+".hash", "11", "22")}}
+	h := HashObj{vPick(tag+".alg", "sha256", "sha512"): vPick(tag+".hash", "11", "22")}
+	if vChoice(tag+".second-alg", 2) == 1 {
+		h["sha384"] = vPick(tag+".hash2", "33", "44")
+	}
+	return map[string]HashObj{vPick(tag+".name", "a", "b"): h}
 }
 
 type vhChain struct {
